@@ -152,11 +152,11 @@ def gen_row(rng, L, prev_text=None):
     if L <= 0:
         return rng.choice(["", [["", {"fg": 31}]]])
     if rng.random() < .25:
-        return "".join(rng.choice("ab ") for _ in range(L))
+        return "".join(rng.choice("ab \xa0" if rng.random() < .2 else "ab ") for _ in range(L))
     spec, left = [], L
     while left > 0:
         k = rng.randint(1, min(left, 3))
-        spec.append(["".join(rng.choice("abc ") for _ in range(k)), dict(rng.choice(obs.PALETTE))])
+        spec.append(["".join(rng.choice("abc \u2003\xa0" if rng.random() < .15 else "abc ") for _ in range(k)), dict(rng.choice(obs.PALETTE))])
         left -= k
     return spec
 
